@@ -335,6 +335,11 @@ FamForms ==
       \* fields promoted from embedded structs and a method with a pointer receiver, value first and pointer first
       <<FS("", "pv", <<F("", "stamp"), F("", "rank")>>), FS("", top, <<Inl("P", <<F("", "stamp"), F("", "code")>>), F("", "name")>>)>>,
       <<FS("", top, <<Inl("P", <<F("", "code"), F("", "rank")>>)>>), FS("", "pv", <<F("", "code"), F("", "stamp")>>)>> } : top \in {"pp", "ps"} } }
+  \* the query root behind a field of the interface it implements
+  \cup { Plain("forms", s) : s \in {
+      <<FS("", "me", <<TN, Inl("Query", <<F("", "title")>>), F("t2", "title")>>)>>,
+      <<FS("", "mes", <<Inl("Titled", <<TN>>), Inl("Query", <<FS("", "a", <<F("", "name")>>)>>)>>), F("", "title")>>,
+      <<FS("", "me", <<Inl("", <<FS("", "me", <<TN, F("", "title")>>)>>)>>)>> } }
 
 \* undefined field under a union member / interface member reached through a condition-less fragment (C10, reflection only)
 FamDefectsAbs ==
@@ -344,6 +349,11 @@ FamDefectsAbs ==
       top \in {"named", "any"}, a \in {Arg("mood", IntV(1)), Arg("loud", BoolV(TRUE)), Arg("zz", IntV(1))} }
   \cup { Case("defectabs", DocF(<<FS("", top, <<Spr("F")>>)>>, <<Frg("F", "Named", <<FA("s", "say", <<a>>)>>)>>), "", NoVars, {}) :
            top \in {"named", "any", "one", "a"}, a \in {Arg("mood", IntV(1)), Arg("loud", BoolV(TRUE))} }
+  \* a named fragment whose type condition no type of the schema has, spread where objects of every kind pass by
+  \cup { Case("defectabs", DocF(<<FS("", top, <<Spr("F"), TN>>)>>, <<Frg("F", "Nope", <<F("", "name")>>)>>), "", NoVars, {}) :
+           top \in {"named", "any", "one", "a", "items"} }
+  \cup { Case("defectabs", DocF(<<FS("", top, <<Inl("", <<Spr("F")>>), F("", "name")>>)>>, <<Frg("F", "Nope", <<F("x", "name"), TN>>)>>), "", NoVars, {}) :
+           top \in {"named", "one"} }
   \cup { Plain("defectabs", s) : s \in {
       <<FS("", "any", <<Inl("", <<F("", "flag")>>), TN>>)>>,
       <<FS("", "any", <<Inl("B", <<F("", "flag")>>), Inl("", <<F("", "n")>>)>>)>>,
